@@ -16,7 +16,7 @@ func main() {
 	for _, g := range []struct {
 		prop string
 		f    func(*core.Ctx)
-	}{{"C01", srcgen.PrepareC01}, {"C02", srcgen.PrepareC02}, {"C09", srcgen.PrepareC09}, {"C20", srcgen.PrepareC20}, {"C12", srcgen.PrepareC12}} {
+	}{{"C01", srcgen.PrepareC01}, {"C02", srcgen.PrepareC02}, {"C09", srcgen.PrepareC09}, {"C20", srcgen.PrepareC20}, {"C12", srcgen.PrepareC12}, {"C04", srcgen.PrepareC04}, {"C05", srcgen.PrepareC05}} {
 		ctx := core.NewCtx(*root, g.prop, "quick", 1, nil)
 		g.f(ctx)
 		fmt.Println(g.prop, "generated")
